@@ -564,3 +564,35 @@ func clipMsg(s string) string {
 	}
 	return s
 }
+
+// modelSelfCheck feeds hand-made ILLEGAL histories to the models: porcupine must reject every
+// one of them (otherwise the history oracle is vacuous). Returns rejected, total.
+func modelSelfCheck() (int, int) {
+	bad := [][]string{
+		{"H mutex 1 0 0 Lock 0 0 -> ok", "J mutex 1 0 1 Lock 0 0 -> ok"},
+		{"J mutex 2 0 0 Unlock 1 0 -> ok"},
+		{"H rwmutex 3 0 0 Lock 0 0 -> ok", "J rwmutex 3 0 1 RLock 0 0 -> ok"},
+		{"H rwmutex 4 0 0 RLock 0 0 -> ok", "J rwmutex 4 0 1 Lock 0 0 -> ok"},
+		{"H rwmutex 5 0 0 RLock 1 0 -> ok", "H rwmutex 5 0 1 RUnlock 1 0 -> ok", "J rwmutex 5 0 2 RUnlock 1 0 -> ok"},
+		{"H waitgroup 6 0 0 Add 2 0 -> ok", "J waitgroup 6 0 1 Wait 0 0 -> ok"},
+		{"H waitgroup 7 0 0 Done 0 0 -> ok"},
+		{"H once 8 0 0 Do 3 0 -> called:3", "H once 8 0 1 Do 2 0 -> called:5"},
+		{"H once 9 0 0 DoPanic 3 0 -> panic S:boom", "H once 9 0 1 Do 2 0 -> called:5"},
+		{"J once 10 0 0 DoRecursive 1 0 -> called:1000"},
+		{"H map 11 0 0 Store 0 5 -> ok", "H map 11 0 1 Load 0 0 -> nil,f"},
+		{"H map 12 0 0 LoadOrStore 3 5 -> v:5,f", "H map 12 0 1 LoadOrStore 3 6 -> v:6,f"},
+		{"H map 13 0 0 Store 1 5 -> ok", "H map 13 0 1 Delete 1 0 -> ok", "H map 13 0 2 Range 0 0 -> [i2=v:5;]"},
+		{"H map 14 0 0 Store 1 5 -> ok", "H map 14 0 1 Store 2 6 -> ok", "H map 14 0 2 RangeStop 0 1 -> visited:2"},
+		{"M pool 15 0 0 Put 1 0 -> ok", "M pool 15 0 1 Get 0 0 -> v:1", "M pool 15 0 2 Get 0 0 -> v:1"},
+		{"M pool 16 0 0 Get 0 0 -> v:7"},
+		{"M pool 17 0 0 Put -1 0 -> ok", "M pool 17 0 1 Get 0 0 -> v:-1"},
+	}
+	rejected := 0
+	for _, h := range bad {
+		_, ill, _, _, _ := checkHistories(h, map[int]bool{}, nil)
+		if ill == 1 {
+			rejected++
+		}
+	}
+	return rejected, len(bad)
+}
